@@ -81,6 +81,40 @@ def ob_construct_round(budget_s=60):
     return symx.explore(run, budget_s=budget_s)
 
 
+ROUND_DENS = [2, 4, 8, 16, 32, 64, 128, 5, 10, 40, 125]
+
+
+def ob_construct_round_nd(d, budget_s=60):
+    """Beat(float|Decimal|decimal string) for x = (d*q + r)/d with a concrete denominator d, every residue r by case split and q
+    any integer: the reduced denominator of x is then concrete along a path, so code that inspects numerator/denominator
+    of the inexact input is decidable (the general-real obligation cannot look inside x)"""
+    import z3
+    symx, mods = _setup()
+    Beat = mods["simfile.timing"].Beat
+    dyadic = d & (d - 1) == 0
+
+    def run():
+        which = symx.choose("which", 4 if dyadic else 3) + (0 if dyadic else 1)
+        r = symx.choose("r", d)
+        q = symx.fresh_int("q", -10**7, 10**7)
+        n = d * q + r
+        x = z3.ToReal(n) / d
+        if which == 0:
+            b = Beat(symx.FloatShim._make(x, (n, d)))
+        elif which == 1:
+            b = Beat(symx.DecShim._make(x, (n, d)))
+        elif which == 2:
+            b = Beat(str(symx.DecShim._make(x, (n, d))))
+        else:
+            b = Beat.from_str(str(symx.DecShim._make(x, (n, d))))
+        bv = symx.zr(symx.term_of(b))
+        aligned, k = symx.tick_index(b)
+        if not aligned:
+            return False, ("construct_round_nd", which, "not tick aligned")
+        return z3.And(bv - x <= z3.RealVal("1/96"), x - bv <= z3.RealVal("1/96"), z3.BoolVal(type(b) is Beat)), ("construct_round_nd", which)
+    return symx.explore(run, budget_s=budget_s)
+
+
 def _operand(symx, Beat, name, kind, den, bound=None):
     import z3
     n = symx.fresh_int(name, -bound if bound else None, bound)
@@ -289,6 +323,9 @@ def obligations(tier):
            dict(name="unary", func="ob_unary", args=(), budget_s=120, bounds="numerator unbounded, denominators " + str(DENS)),
            dict(name="text_roundtrip", func="ob_text_roundtrip", args=(), budget_s=120, bounds="all integers k (tick index), unbounded"),
            dict(name="overrides_present", func="ob_overrides_present", args=(), budget_s=10, bounds="AST of class Beat")]
+    for d in ROUND_DENS:
+        obs.append(dict(name=f"construct_round x=n/{d}", func="ob_construct_round_nd", args=(d,), budget_s=120,
+                        bounds=f"x = n/{d}: every residue of n modulo {d} by case split, quotient any integer with |q| <= 1e7; float (dyadic d) / Decimal / decimal string / from_str"))
     pairs = [(1, 1), (48, 48), (48, 7), (3, 1000)] if tier == "quick" else [(a, b) for a in DENS for b in DENS]
     for op in BINOPS:
         for lk, rk in (("beat", "beat"), ("beat", "int"), ("int", "beat"), ("beat", "fraction"), ("fraction", "beat")):
@@ -327,6 +364,16 @@ def replay(data):
     if func == "ob_construct_round":
         w = int(g("which"))
         x = g("mx") / (2**20 if w == 0 else 10**6) if not int(g("gridfirst")) else g("x")
+        dx = Decimal(x.numerator) / Decimal(x.denominator)
+        if Fraction(dx) != x:
+            return False, "model value is not a finite decimal"
+        b = [lambda: Beat(float(dx)), lambda: Beat(dx), lambda: Beat(str(dx)), lambda: Beat.from_str(str(dx))][w]()
+        bad = (Fraction(b) * 48).denominator != 1 or abs(Fraction(b) - (Fraction(float(dx)) if w == 0 else x)) > Fraction(1, 96) or type(b) is not Beat
+        return bad, f"variant {w}, x={dx}: {Fraction(b)}"
+    if func == "ob_construct_round_nd":
+        d = args[0]
+        w = int(g("which")) + (0 if d & (d - 1) == 0 else 1)
+        x = Fraction(d * int(g("q")) + int(g("r")), d)
         dx = Decimal(x.numerator) / Decimal(x.denominator)
         if Fraction(dx) != x:
             return False, "model value is not a finite decimal"
